@@ -9,6 +9,9 @@ From Shovel Require Import Model.TaskTypes Model.TaskDb Model.Task Model.TaskNod
 Import ListNotations.
 Open Scope N_scope.
 
+Lemma Forall_True : forall {A} (l : list A), Forall (fun _ => True) l.
+Proof. intros. apply Forall_forall. intros. exact I. Qed.
+
 Lemma cfg_self : forall c, cfg_ok c -> ~ In (t_ig c) (t_deps c).
 Proof. intros c (_ & _ & _ & _ & _ & H). exact H. Qed.
 
@@ -96,6 +99,8 @@ Qed.
 Section Step.
 Variable c : tcfg.
 Variable G : io -> reply -> Prop.
+Variable SA : ans -> Prop.
+Variable FD : Prop.
 Variable BP : blk -> Prop.
 Variable HP : N -> N -> Prop.
 Variable HD : N -> Prop.
@@ -105,6 +110,7 @@ Hypothesis G_ok : forall i r, G i r -> reply_ok i r.
 Hypothesis G_bp : forall ps rs, G (RGet ps) (RSegs rs) -> Forall BP (concat (map seg_blocks rs)).
 Hypothesis G_hp : forall n h, G (RHash n) (RHashV h) -> HP n h.
 Hypothesis G_hd : forall k n h, G (RLatest k) (RHead n h) -> HD n.
+Hypothesis H_fd : forall x, SA (AReply (RDep x)) -> FD.
 Hypothesis H_rj : forall p ln lh f,
   W c BP p -> pos_of c HP HD p ln lh -> BP f -> b_num f = ln + 1 -> b_parent f <> 0 ->
   lh <> b_parent f -> RJ p.
@@ -114,16 +120,17 @@ Variable d : db.
 Variable s : list ans.
 Hypothesis Hpv : pv c d = render c g.
 Hypothesis Hw : W c BP g.
+Hypothesis Hsa : Forall SA s.
 Hypothesis Ht : trace_sat G (step c s d).
 
 Lemma step_all :
-  Forall (fun e => Inv c BP HP HD RJ g (outside c d) d (snd e)) (r_trace (step c s d))
-  /\ Inv c BP HP HD RJ g (outside c d) d (r_db (step c s d))
+  Forall (fun e => Inv c FD BP HP HD RJ g (outside c d) d (snd e)) (r_trace (step c s d))
+  /\ Inv c FD BP HP HD RJ g (outside c d) d (r_db (step c s d))
   /\ forall o, r_out (step c s d) = Fin o ->
-               Qstep c G BP HP HD RJ g d o (r_db (step c s d)) (r_cs (step c s d)).
+               Qstep c G FD BP HP HD RJ g d o (r_db (step c s d)) (r_cs (step c s d)).
 Proof.
-  exact (S_converge c G BP HP HD RJ g (outside c d) d Hc G_ok G_bp G_hp G_hd (cfg_self c Hc) H_rj
-                    eq_refl Hpv Hw s Ht).
+  exact (S_converge c G SA FD BP HP HD RJ g (outside c d) d Hc G_ok G_bp G_hp G_hd (cfg_self c Hc) H_fd H_rj
+                    eq_refl Hpv Hw s Hsa Ht).
 Qed.
 
 (* what a successful step wrote *)
@@ -134,7 +141,7 @@ Lemma step_converged : r_out (step c s d) = Fin OConverged ->
     /\ pos_of c HP HD p ln lh
     /\ map b_num bs = nums_from (ln + 1) (length bs)
     /\ bs <> [] /\ N.of_nat (length bs) <= t_batch c
-    /\ Forall (fun x => dep_bound c d (b_num x)) bs.
+    /\ Forall (fun x => dep_bound c FD d (b_num x)) bs.
 Proof.
   intros Ho. destruct step_all as (_ & _ & C). destruct (C _ Ho) as (_ & Hadv & _).
   destruct (Hadv eq_refl) as (p & bs & Hu & (Hne & Hlen & (ln & lh & Hpos & Hn) & Hdep) & Hwf & Hp).
